@@ -482,7 +482,27 @@ def check_implicit_contexts(run, f, cfg, adt, dialect, tab, sp, spell, domain, d
         run.anchor("C05.R6", "%s:contexts" % dialect, "expression contexts could not be enumerated: %s" % ex, cfg)
         return
     sites = {}
+    # a private helper that only the renderers of IMPLICIT call is part of their table (the interpretation follows the call)
+    callers = {}
+    for name_, fn_ in f.fns.items():
+        if fn_.get("kind") != "fn" or fn_.get("hir") is None:
+            continue
+        for c_ in H.calls(fn_["hir"]):
+            for d_ in (c_.get("callee"), H.callee(c_)):
+                if d_:
+                    callers.setdefault(d_.rsplit("::", 1)[-1], set()).add(name_.rsplit("::", 1)[-1])
+
+    def owner(fn, depth=0):
+        if fn in IMPLICIT or fn in TABULATED or fn in REVIEWED_CONTEXTS:
+            return fn
+        cs = callers.get(fn) or set()
+        if depth < 2 and cs:
+            owners = set(owner(c_, depth + 1) for c_ in cs)
+            if len(owners) == 1 and None not in owners:
+                return owners.pop()
+        return None
     for fn, pv, nx, spn in ctxs:
+        fn = owner(fn) or fn
         if fn in TABULATED:
             continue
         left_op = nx in OP_TOKENS        # the expression is the LEFT operand of `nx`
